@@ -117,7 +117,7 @@ PROPERTIES = {
         note='Trusted: as for the units involved (see evidence.trusted_base). Machine integers are machine integers; usize is 64 bit.',
         out=['quill/src/lines.rs, tiny_v2.rs, tiny_v2_diff.rs, enigma_file.rs, dukenest/src/io.rs (text parsers)', 'duke/src/tree/descriptor.rs read_field_type (Peekable<Chars>)', 'read_code closures']),
     'C17': dict(
-        level='proof', verus=['rskip'], kani=[],
+        level='proof', verus=['rskip', 'rattrs'], kani=[],
         technique=VERUS_TECH,
         claim='Unbounded proof, for the functions under contract only: skip_attributes consumes exactly the attribute table (count + each 6-byte header + attribute_length bytes) and fails iff a header lies beyond the data; '
               'with_pos restores the stream position; the primitive readers consume exactly their width. Partial: per-attribute interest arms and accept() replay are not under contract.',
